@@ -13,6 +13,7 @@ import AnthemModel.Model.Strong
 import AnthemModel.Model.TptpFmt
 import AnthemModel.Props.C05
 import AnthemModel.Proofs.Decompose
+import AnthemModel.Semantics.Tff
 namespace Anthem.C12
 
 def isInteger (x : Dom) : Prop := ∃ n : Int, x = .num n
@@ -188,6 +189,29 @@ theorem transition_true {J : Interp} {M : HTI} (hm : C05.Merges J M) (hs : M.Sub
   rw [sat_quantify]
   simp only [sat]
   exact bindAll_iff.mpr (fun τ _ => body τ)
+
+/-- **The standard structure of every interpretation is a model of the whole preamble** (the 15
+    axioms as one statement about the TFF structure that `C06.rendering_preserves_meaning` uses). -/
+theorem std_satisfies_preamble (I : Interp) : Preamble (stdStruct I) where
+  p__is_integer__def_ax := p__is_integer__def_ax
+  p__is_symbolic__def_ax := p__is_symbolic__def_ax
+  general_universe_ax := general_universe_ax
+  f__integer__def_ax := f__integer__def_ax
+  f__symbolic__def_ax := f__symbolic__def_ax
+  numeral_ordering_ax := numeral_ordering_ax
+  antisymmetric_ordering_ax := antisymmetric_ordering_ax
+  transitive_ordering_ax := transitive_ordering_ax
+  strongly_connected_ordering_ax := strongly_connected_ordering_ax
+  p__less__def_ax := p__less__def_ax
+  p__greater_equal__def_ax := p__greater_equal__def_ax
+  p__greater__def_ax := p__greater__def_ax
+  minimal_element_ax := minimal_element_ax
+  numerals_less_than_symbols_ax := numerals_less_than_symbols_ax
+  maximal_element_ax := maximal_element_ax
+
+/-- … and of the `symbol_order` axioms of any problem (duplicate-free symbol list). -/
+theorem std_satisfies_symbol_order (I : Interp) (syms : List String) (hnd : syms.Nodup) :
+    SymbolOrder (stdStruct I) syms := symbol_chain_true syms hnd
 
 /-- Non-vacuity: the symbol chain of a three-symbol problem. -/
 example : windows2 (sortStrs ["c", "a", "b"]) = [("a", "b"), ("b", "c")] := by decide
